@@ -306,6 +306,42 @@ def run(prog: Program, rep, tier="quick"):
     rep.ob("R03.5", PACK, "_encode_copy_operation", "copy op: 4 offset bytes, 2 length bytes, flag bits 0-3 and 4-5 in both encoders",
            "range(4)" in eco_py and "range(2)" in eco_py and "1 << 4 + i" in eco_py and "0 .. 4" in eco_rs and "0 .. 2" in eco_rs and "1 << ( 4 + i )" in eco_rs,
            "", m.funcs["_encode_copy_operation"].node.lineno)
+    # each offset / length byte of a copy op is emitted or skipped on its own: no early exit from the byte loops (a zero byte
+    # below a non-zero byte is skipped, the higher byte still has to be written)
+    eco = m.funcs["_encode_copy_operation"]
+    exits = [x for lp in ast.walk(eco.node) if isinstance(lp, ast.For) and "range(" in norm(lp.iter)
+             for x in ast.walk(lp) if isinstance(x, (ast.Break, ast.Return))]
+    loops = [lp for lp in ast.walk(eco.node) if isinstance(lp, ast.For) and "range(" in norm(lp.iter)]
+    rep.ob("R03.5", PACK, eco.qual, "the byte loops of the copy op have no early exit (bytes are independent)", len(loops) == 2 and not exits,
+           f"`{type(exits[0]).__name__.lower()}` inside the byte loop: an offset such as 0x10000 or 0xFF00 loses its high bytes and the "
+           f"delta copies from the wrong place in the base" if exits else f"{len(loops)} byte loops", exits[0].lineno if exits else eco.node.lineno)
+    # size varint (LEB128) encoder: idiom A `c = size & 0x7F; size >>= 7; while size: emit c | 0x80; ...; emit c`
+    #                               idiom B `while size > 0x7F: emit size & 0x7F | 0x80; size >>= 7; emit size`
+    from sa.common import var_cmp, same_int_test
+    des = m.funcs.get("_delta_encode_size")
+    if des is None:
+        raise AnalysisError("_delta_encode_size not found")
+    wl = [w_ for w_ in ast.walk(des.node) if isinstance(w_, ast.While)]
+    verdict, why = None, ""
+    if len(wl) == 1:
+        t_ = wl[0].test
+        if isinstance(t_, ast.Name):
+            # idiom A: the low group is taken and the value shifted BEFORE the loop test
+            pre = [norm(s_) for s_ in des.node.body if s_ is not wl[0]]
+            verdict = any("& 127" in p_.replace("0x7F", "127").replace("0x7f", "127") for p_ in pre) and any(p_.endswith(">>= 7") for p_ in pre)
+            why = "idiom A without taking the low group / shifting before the loop"
+        else:
+            v = var_cmp(t_, F)
+            if v is not None:
+                verdict = same_int_test(v[1], v[2], ">", 0x7F)
+                why = f"the loop continues while `{norm(t_)}`; a final group needs the loop exactly while the value exceeds 0x7F: sizes whose " \
+                      f"last group is exactly 0x80 are written without a terminating byte"
+    if verdict is None:
+        raise AnalysisError("_delta_encode_size: varint loop idiom not recognised")
+    masks = sorted({F.try_fold(x.right) for x in ast.walk(des.node) if isinstance(x, ast.BinOp) and isinstance(x.op, (ast.BitAnd, ast.BitOr)) and F.try_fold(x.right) is not None})
+    shifts = [F.try_fold(x.value) for x in ast.walk(des.node) if isinstance(x, ast.AugAssign) and isinstance(x.op, ast.RShift)]
+    rep.ob("R03.5", PACK, des.qual, "size varint encoder: 7-bit groups, continuation 0x80, loop exactly while more than 7 bits remain", verdict and masks == [127, 128]
+           and set(shifts) == {7}, why if not verdict else f"masks {masks} shifts {shifts}", des.node.lineno)
     # ---- R03.6
     ro = m.funcs.get("DeltaChainIterator._resolve_object")
     if ro is None:
@@ -320,6 +356,25 @@ def run(prog: Program, rep, tier="quick"):
     bad = must_pass(g, rets, guard, start=starts) if starts else rets
     rep.ob("R03.6", PACK, ro.qual, "result of apply_delta passes the empty-payload test before it is returned", bool(ap) and bool(guard) and not bad,
            "", ro.node.lineno)
+    # "no base" is None; an EMPTY base (the empty blob, b"" / []) is a base like any other: the decision is an identity test
+    bp = [a.arg for a in ro.node.args.args if "base" in a.arg and a.annotation is not None and "None" in norm(a.annotation)]
+    truthy = []
+    for x in ast.walk(ro.node):
+        if isinstance(x, (ast.If, ast.IfExp, ast.While, ast.Assert)):
+            st = [x.test]
+            while st:
+                e = st.pop()
+                if isinstance(e, ast.BoolOp):
+                    st.extend(e.values)
+                elif isinstance(e, ast.UnaryOp) and isinstance(e.op, ast.Not):
+                    st.append(e.operand)
+                elif isinstance(e, ast.Name) and e.id in bp:
+                    truthy.append(e)
+    ident = [x for x in ast.walk(ro.node) if isinstance(x, ast.Compare) and isinstance(x.left, ast.Name) and x.left.id in bp
+             and isinstance(x.ops[0], (ast.Is, ast.IsNot))]
+    rep.ob("R03.6", PACK, ro.qual, f"whether there is a base ({', '.join(bp)}) is decided by `is None`, not by truthiness", bool(bp) and bool(ident) and not truthy,
+           "an empty base (the empty blob as delta base, e.g. of a thin pack) is taken for 'no base': the delta is not applied", 
+           truthy[0].lineno if truthy else ro.node.lineno)
     # ---- R03.7
     g = cfg_of(prog, ad)
     appends = [i for i, n in g.nodes.items() for c in node_calls(n) if dotted(c.func) == "out.append"]
